@@ -46,6 +46,12 @@ inner_ok = z3.Function("inner_elements_are_scalars", I, B)           # every ele
 elems_ok = z3.Function("elements_are_scalars_or_lists_of_scalars", I, B)
 inner_wit = z3.Function("inner_element_witness", I, I)
 elems_wit = z3.Function("element_witness", I, I)
+rec_has = z3.Function("quantity_table_has", I, B)                    # a record (cls, value_prop, units_prop) of self.quantities
+inst_of = z3.Function("isinstance_of_quantity_class", I, I, B)       # (value id, record id)
+mag_id = z3.Function("magnitude_of", I, I, I)                        # getattr(value, record.value_prop)
+is_quantity = z3.Function("is_instance_of_a_registered_quantity_class", I, B)
+units_number = z3.Function("is_a_quantity_whose_magnitude_is_a_number", I, B)
+q_wit = z3.Function("quantity_class_witness", I, I)
 first_of = z3.Function("first_item_of_table", I, S)
 fmt_fn = z3.Function("encoder_format", S, I, S)                      # self.format(text, level)
 module_text = z3.Function("encode_module_text", I, I, S)             # self.encode_module(value, level)
@@ -137,6 +143,11 @@ class EncTheory(LexTheory):
                       patterns=[z3.MultiPattern(all_chars_allowed(y), char_of(x, y))]),
             z3.ForAll([y], z3.Implies(z3.Not(all_chars_allowed(y)), z3.And(char_of(bad_allowed(y), y), z3.Not(allowed(bad_allowed(y))))),
                       patterns=[all_chars_allowed(y)]),
+            z3.ForAll([v, u], z3.Implies(z3.And(rec_has(u), inst_of(v, u)), is_quantity(v)), patterns=[z3.MultiPattern(rec_has(u), inst_of(v, u))]),
+            z3.ForAll([v], z3.Implies(is_quantity(v), z3.And(rec_has(q_wit(v)), inst_of(v, q_wit(v)))), patterns=[is_quantity(v)]),
+            z3.ForAll([v, u], z3.Implies(z3.And(rec_has(u), inst_of(v, u), type_is(mag_id(v, u), type_id("self.numeric_types")),
+                                                z3.Not(type_is(mag_id(v, u), type_id("bool")))), units_number(v)),
+                      patterns=[z3.MultiPattern(rec_has(u), inst_of(v, u))]),
             z3.ForAll([v, u], z3.Implies(elem_of(u, v), pylen(v) > 0), patterns=[elem_of(u, v)]),
             z3.ForAll([v], pylen(v) >= 0, patterns=[pylen(v)]),
             z3.ForAll([v, u], z3.Implies(z3.And(inner_ok(v), elem_of(u, v)), _inner_j(u)), patterns=[z3.MultiPattern(inner_ok(v), elem_of(u, v))]),
@@ -193,12 +204,14 @@ class EncTheory(LexTheory):
                 return Z("bool", z3.Const("self_" + attr, B))
             if attr == "numeric_types":
                 return FuncV("self.numeric_types")
+            if attr == "quantities":
+                return ObjV("records")
             if attr == "newline":
                 return Z("str", z3.Const("self_newline", S))
         return None
 
     def global_name(self, ex, name):
-        if name in ("set", "frozenset", "list", "bool", "str", "datetime", "any", "Token", "isinstance", "len", "super", "enumerate", "max", "abc"):
+        if name in ("set", "frozenset", "list", "bool", "str", "datetime", "any", "Token", "isinstance", "len", "super", "enumerate", "max", "abc", "getattr"):
             return FuncV(name)
         return super().global_name(ex, name)
 
@@ -226,6 +239,8 @@ class EncTheory(LexTheory):
                 return ObjV("pairs", info={"id": tid("g.comments")})
             if attr == "aggregation_keywords":
                 return ObjV("kwmap", info={"id": tid("g.aggregation_keywords")})
+        if isinstance(recv, ObjV) and recv.role == "record" and attr in ("cls", "value_prop", "units_prop"):
+            return ObjV("recfield", info={"rec": recv.info["id"], "field": attr})
         if isinstance(recv, ObjV) and recv.role in ("decoder", "pyval", "kwmap", "pylist"):
             return BoundM(recv, attr)
         if isinstance(recv, FuncV) and recv.name in ("datetime", "abc"):
@@ -287,8 +302,17 @@ class EncTheory(LexTheory):
             return Z("str", x)
         return super().getitem(ex, recv, idx)
 
+    def b_getattr(self, ex, args, kwargs):
+        v, nm = args[0], args[1]
+        if (isinstance(v, ObjV) and v.role == "pyval" and isinstance(nm, ObjV) and nm.role == "recfield"
+                and nm.info["field"] == "value_prop"):
+            return ObjV("pyval", info={"id": mag_id(v.info["id"], nm.info["rec"])})
+        raise Untranslatable("getattr")
+
     def b_isinstance(self, ex, args, kwargs):
         v, t = args
+        if isinstance(t, ObjV) and t.role == "recfield" and t.info["field"] == "cls" and isinstance(v, ObjV) and v.role == "pyval":
+            return Z("bool", inst_of(v.info["id"], t.info["rec"]))
         names = []
         for x in (t.items if isinstance(t, TupV) else [t]):
             if isinstance(x, FuncV):
@@ -482,6 +506,8 @@ class EncTheory(LexTheory):
             return self.search_loop(ex, node, itv, spec, ordn)
         if self.sv(itv) is not None and getattr(spec, "fall_through", None) is not None:
             return self.search_loop(ex, node, ObjV("chars", info={"text": self.sv(itv)}), spec, ordn)
+        if isinstance(itv, ObjV) and itv.role == "records" and getattr(spec, "fall_through", None) is not None:
+            return self.search_loop(ex, node, ObjV("recordtable", info={"id": z3.IntVal(0)}), spec, ordn)
         if isinstance(itv, ObjV) and itv.role == "pyval" and getattr(spec, "fall_through", None) is not None:
             return self.search_loop(ex, node, ObjV("elements", info={"id": itv.info["id"]}), spec, ordn)
         if isinstance(itv, ObjV) and itv.role == "enum-chars" and getattr(spec, "fall_through", None) is not None:
@@ -498,9 +524,11 @@ class EncTheory(LexTheory):
         if assigned_in(node.body) - {t.id for t in ast.walk(node.target) if isinstance(t, ast.Name)}:
             raise Untranslatable(f"search loop #{ordn} assigns variables")
         chars = table.role == "chars"
-        elements = table.role == "elements"
+        elements = table.role in ("elements", "recordtable")
+        records = table.role == "recordtable"
         k = table.info["text"] if chars else table.info["id"]
-        member = (lambda x: char_of(x, k)) if chars else (lambda x: elem_of(x, k)) if elements else (lambda x: set_has(k, x))
+        member = ((lambda x: char_of(x, k)) if chars else (lambda x: rec_has(x)) if records else
+                  (lambda x: elem_of(x, k)) if elements else (lambda x: set_has(k, x)))
         pairs = table.role == "pairs"
         c = ex.path.choose(2, f"for@{node.lineno}")
         if c == 0:
@@ -511,7 +539,7 @@ class EncTheory(LexTheory):
             elif elements:
                 x = fresh("element_id", I)
                 ex.st.assume(member(x))
-                ex.assign(node.target, ObjV("pyval", info={"id": x}))
+                ex.assign(node.target, ObjV("record" if records else "pyval", info={"id": x}))
             else:
                 x = fresh("member", S)
                 ex.st.assume(member(x))
